@@ -1,0 +1,11 @@
+//go:build verif
+
+// Contracts for package crypto, checked by /verif/govc (comment-only; see /verif/DESIGN.md).
+package crypto
+
+// Signature recovery is reached with peer-supplied byte strings (votes, proposals, evidence, the
+// connection handshake): it must not panic for ANY signature length.
+//@ func SigToPub(hash, sig []byte) (pub *ecdsa.PublicKey, err error)
+//@   for C18 C11 C20
+//@   safe
+//@   ensures err != nil ==> pub == nil
